@@ -1,8 +1,14 @@
 """Executor registry: plan['exec'] -> function(plan) -> World."""
 from .exec_parser import run_parser
 from .exec_peer import run_peer
+from .exec_reconnect import run_reconnect
+from .exec_routing import run_routing
+from .exec_rx import run_rx
 
 EXECUTORS = {
     'parser': run_parser,
     'peer': run_peer,
+    'reconnect': run_reconnect,
+    'routing': run_routing,
+    'rx': run_rx,
 }
